@@ -73,6 +73,8 @@ def base_configs():
         ("custom-serde", {"serde": UpperSerde()}),
         ("legacy-funcs", {"serializer": legacy_ser, "deserializer": legacy_deser}),
         ("timeouts", {"connect_timeout": 1.5, "timeout": 2.5}),
+        ("io-timeout-only", {"timeout": 2.5}),
+        ("connect-timeout-only", {"connect_timeout": 1.5}),
         ("no_delay", {"no_delay": True}),
     ]
 
@@ -168,6 +170,13 @@ def ops_grid(cfgname):
     add("getitem-miss", "__getitem__", "m1")
     add("delitem", "__delitem__", "h1")
     add("delitem-miss", "__delitem__", "m1")
+    # stored values that are falsy but present
+    add("getitem-empty-value", "__getitem__", "empty")
+    add("getitem-zero", "__getitem__", "zero")
+    add("get-empty-value", "get", "empty", D)
+    add("gets-empty-value", "gets", "empty", default=D, cas_default=CD)
+    add("gat-empty-value", "gat", "empty", expire=5, default=D)
+    add("get_many-empty-value", "get_many", ["empty", "zero", "m1"])
     if uni:
         add("set-unicode-key", "set", "clé-☃", b"v", noreply=False)
         add("get_many-unicode", "get_many", ["clé-☃", "h1"])
@@ -176,7 +185,8 @@ def ops_grid(cfgname):
 
 def prefill(srv, prefix):
     pre = prefix if isinstance(prefix, bytes) else prefix.encode("ascii")
-    for k, v in ((b"h1", b"value-h1"), (b"h2", b"value-h2"), (b"num", b"10"), (b"txt", b"abc"), ("clé-☃".encode("utf8"), b"uni")):
+    for k, v in ((b"h1", b"value-h1"), (b"h2", b"value-h2"), (b"num", b"10"), (b"txt", b"abc"), (b"empty", b""), (b"zero", b"0"),
+                 ("clé-☃".encode("utf8"), b"uni")):
         srv.store[pre + k] = Item(v, 0, 0, srv._next_cas())
 
 
